@@ -183,3 +183,72 @@ def orderings(draw, base):
     for _ in range(ndup):
         cells.insert(draw(st.integers(0, len(cells))), cells[draw(st.integers(0, len(cells) - 1))])
     return list(cells)
+
+
+# ---------------------------------------------------------------------------------------------
+# points on the globe (geodetic lon/lat degrees), DESIGN.md §5
+# ---------------------------------------------------------------------------------------------
+from lib import refgeo  # noqa: E402
+
+FRAME_LL = [refgeo.frame_to_lonlat(v) for v in refgeo.FRAME]
+_unit = st.floats(0.0, 1.0, allow_nan=False, allow_infinity=False, allow_subnormal=False)
+_lon = st.floats(-180.0, 180.0, allow_nan=False, allow_infinity=False)
+
+
+def _pt(lon, lat, cls):
+    lat = max(-90.0, min(90.0, lat))
+    return {"lon": lon, "lat": lat, "cls": cls}
+
+
+def pts_uniform():
+    return st.builds(lambda lon, u: _pt(lon, math.degrees(math.asin(2 * u - 1)), "uniform"), _lon, _unit)
+
+
+def pts_polar():
+    def mk(lon, u, south):
+        colat = 10.0 ** (-10 + 11 * u)        # 1e-10 .. 10 degrees
+        lat = 90.0 - colat
+        return _pt(lon, -lat if south else lat, "polar")
+    return st.builds(mk, _lon, _unit, st.booleans())
+
+
+def pts_pole_exact():
+    return st.builds(lambda lon, south: _pt(lon, -90.0 if south else 90.0, "pole_exact"), _lon, st.booleans())
+
+
+def pts_frame_exact():
+    return st.integers(0, 61).map(lambda i: _pt(FRAME_LL[i][0], FRAME_LL[i][1], "frame_exact"))
+
+
+def pts_frame_nbhd():
+    def mk(i, u, b):
+        d = 10.0 ** (-12 + 11 * u)            # 1e-12 .. 1e-1 rad
+        v = refgeo.offset_point(refgeo.FRAME[i], d, 2 * math.pi * b)
+        lon, lat = refgeo.frame_to_lonlat(v)
+        return _pt(lon, lat, "frame_nbhd")
+    return st.builds(mk, st.integers(0, 61), _unit, _unit)
+
+
+def pts_antimeridian():
+    def mk(k, sign, u, exact):
+        lon = 180.0 if exact else 180.0 - 10.0 ** (-k)
+        return _pt(sign * lon, math.degrees(math.asin(2 * u - 1)), "antimeridian")
+    return st.builds(mk, st.floats(0, 13, allow_nan=False), st.sampled_from([-1.0, 1.0]), _unit, st.booleans())
+
+
+def pts_base():
+    return st.one_of(pts_uniform(), pts_polar(), pts_frame_nbhd(), pts_frame_nbhd(), pts_antimeridian(),
+                     pts_frame_exact(), pts_pole_exact())
+
+
+def pts_wrapped():
+    def mk(p, s):
+        lon = p["lon"] + s
+        if not (-540.0 <= lon <= 540.0):
+            lon = p["lon"]
+        return {"lon": lon, "lat": p["lat"], "cls": p["cls"] + "+wrap" if lon != p["lon"] else p["cls"]}
+    return st.builds(mk, pts_base(), st.sampled_from([360.0, -360.0]))
+
+
+def points():
+    return st.one_of(pts_base(), pts_base(), pts_base(), pts_wrapped())
